@@ -91,3 +91,13 @@ Definition pm_delitem (m : m2m) (d : msel) (k : nat) : res m2m :=
   | Some _ => Ok (mput m d (d_rm (msel_get m d) k))
   | None => Raise KeyError
   end.
+
+(* D.pop(k) on a dict of sets: the set and the dict without the key *)
+Definition pm_pop (m : m2m) (d : msel) (k : nat) : res (list nat * m2m) :=
+  match d_get (msel_get m d) k with
+  | Some s => Ok (s, mput m d (d_rm (msel_get m d) k))
+  | None => Raise KeyError
+  end.
+(* for v in vals: body   (no break / return in the body) *)
+Definition pm_for (vals : list nat) (body : m2m -> nat -> res (val * m2m)) (m : m2m) : res m2m :=
+  fold_left (fun acc v => bind acc (fun m => bind (body m v) (fun r => Ok (snd r)))) vals (Ok m).
